@@ -87,6 +87,26 @@ Proof.
   exact (tree_root_binds k l l' Hl Hl' Hf Hf' He).
 Qed.
 
+(* ... and for the padded tree of BEP 52: two leaf lists of the same length n <= 2^h (the blocks of two files of
+   the same size) under one root are equal, or there is a collision *)
+Theorem padded_root_binds h : forall ls ls',
+  length ls = length ls' -> length ls <= 2 ^ h ->
+  Forall (fun x => length x = 32) ls -> Forall (fun x => length x = 32) ls' ->
+  tree_root h (pad_leaves (2 ^ h) ls) = tree_root h (pad_leaves (2 ^ h) ls') -> ls = ls' \/ collision.
+Proof.
+  intros ls ls' Hl Hle Hf Hf' He.
+  assert (P : forall l, length l <= 2 ^ h -> Forall (fun x => length x = 32) l ->
+              length (pad_leaves (2 ^ h) l) = 2 ^ h /\ Forall (fun x => length x = 32) (pad_leaves (2 ^ h) l)).
+  { intros l Hl0 Hf0. unfold pad_leaves. split.
+    - rewrite app_length, repeat_length, Nat.add_comm. apply Nat.sub_add, Hl0.
+    - apply Forall_app. split; [exact Hf0|]. apply Forall_forall. intros x Hx.
+      apply repeat_spec in Hx. subst x. apply zeros_length. }
+  assert (Hle' : length ls' <= 2 ^ h) by (rewrite <- Hl; exact Hle).
+  destruct (P ls Hle Hf) as [A1 A2]. destruct (P ls' Hle' Hf') as [B1 B2].
+  destruct (tree_root_binds h _ _ A1 B1 A2 B2 He) as [E|C]; [left|right; exact C].
+  unfold pad_leaves in E. apply (app_inv_len _ _ _ _ Hl E).
+Qed.
+
 End MerkleCollision.
 
 (* non-vacuity of `collision` as a notion: a constant "hash" has one, and then the theorem's
@@ -96,3 +116,4 @@ Proof. exists [], [Ascii.zero]. split; [discriminate|reflexivity]. Qed.
 
 Print Assumptions tree_root_binds.
 Print Assumptions merkle_root_binds.
+Print Assumptions padded_root_binds.
